@@ -36,10 +36,11 @@ impl Palette {
         let is_simple = {
             let index_grid = targets[0].as_shared();
             let height = index_grid.height();
+            // Indices below `nb_deltas` are delta entries, which need the slow path.
             (0..height).all(|y| {
                 let row = index_grid.get_row(y);
                 row.iter()
-                    .all(|&index| (0..nb_colors).contains(&index.to_i32()))
+                    .all(|&index| (nb_deltas..nb_colors).contains(&index.to_i32()))
             })
         };
 
